@@ -3,6 +3,7 @@ package eval
 import (
 	"bytes"
 	"math"
+	"slices"
 	"strings"
 
 	"fortio.org/log"
@@ -1253,6 +1254,8 @@ func (s *State) evalArrayInfixExpression(operator token.Type, left, right object
 		}
 		return object.NewArray(result)
 	case token.PLUS: // concat / append
+		// Clip so append never writes into spare capacity shared with another array (e.g. left is a slice of a bigger one).
+		leftVal = slices.Clip(leftVal)
 		if right.Type() != object.ARRAY {
 			return object.NewArray(append(leftVal, object.Value(right)))
 		}
